@@ -6,7 +6,7 @@ EXTENDS Tracker, Json, IOUtils, SequencesExt
 MaxDev == CHOOSE n \in 0..8 : ToString(n) = IOEnv.TR_MAXDEV
 NL     == CHOOSE n \in 0..2 : ToString(n) = IOEnv.TR_NL
 Contents == IF NL = 2 THEN {"e", "f1", "d1", "f2", "d2"} ELSE {"e", "f1", "d1"}
-Dbs == {0, 2, 3, -1}
+Dbs == {0, 2, 3, -1, -2}
 
 VARIABLE x
 Init == x = 0
